@@ -264,13 +264,6 @@ Fixpoint copy_back (h : heap) (th : thru) : option (heap * list cell) :=
       end
   end.
 
-Inductive op : Type :=
-| OS (s : sop)                                   (* a statement of main *)
-| ONop (n : nat)                                 (* allocates n unused locations (left by the shrinker) *)
-| ODecl (s : aexp)                               (* T c = s;   fresh location holding a copy *)
-| OCall (ps : list param) (body : list sop)      (* f(args) / recv.m(): generated callee body *)
-        (ret : option (aexp * option aexp)).     (* return e;  stored into Some d  or a fresh variable *)
-
 Definition exec_call (mech : bool) (h : heap) (ps : list param) (body : list sop)
            (ret : option (aexp * option aexp)) : option res :=
   match bind mech h ps [] [] with
@@ -296,12 +289,133 @@ Definition exec_call (mech : bool) (h : heap) (ps : list param) (body : list sop
       end
   end.
 
+(* ---------------------------------------------------------------- calls made from inside a callee body
+   A callee body may itself call a method or a function whose own body consists of simple statements
+   (void f(In* q) { q->m(k); }, int m1() { self.m0(); return self.v; }).  The arguments and the destination of the
+   returned value are resolved in the CALLER's frame fr0; the parameters are bound, copied in and copied back
+   exactly like those of a call made from main (call_impl.cpp is re-entered: same self set-up at 4292-4600, same
+   three write-back blocks 6101-6259 / 6356-6461 (falling off the end) and 6576-6734 (return statement)).
+   While the inner body runs, writes go through the inner copy-in parameters first, then through the caller's. *)
+Fixpoint bind_in (mech : bool) (h : heap) (fr0 : frame) (ps : list param) (fr : frame) (th : thru)
+  : option (heap * frame * thru) :=
+  match ps with
+  | [] => Some (h, fr, th)
+  | (m, a) :: ps' =>
+      match resolve h fr0 a with
+      | None => None
+      | Some c =>
+          match m with
+          | MVal => match hread h c with
+                    | Some v => bind_in mech (h ++ [v]) fr0 ps' (fr ++ [(length h, [])]) th
+                    | None => None
+                    end
+          | MPtr => bind_in mech (h ++ [VPtr (Some c)]) fr0 ps' (fr ++ [(length h, [])]) th
+          | MRef => bind_in mech (h ++ [VInt 0]) fr0 ps' (fr ++ [c]) th
+          | MArr | MSelf =>
+              if mech
+              then match hread h c with
+                   | Some v => bind_in mech (h ++ [v]) fr0 ps' (fr ++ [(length h, [])]) (th ++ [(length h, c)])
+                   | None => None
+                   end
+              else bind_in mech (h ++ [VInt 0]) fr0 ps' (fr ++ [c]) th
+          end
+      end
+  end.
+
+Definition exec_call_in (mech : bool) (h : heap) (fr0 : frame) (th0 : thru) (ps : list param) (body : list sop)
+           (ret : option (aexp * option aexp)) : option res :=
+  match bind_in mech h fr0 ps [] [] with
+  | None => None
+  | Some (h1, fr, thn) =>
+      match exec_sops h1 fr (thn ++ th0) body with
+      | None => None
+      | Some (h2, out, fp) =>
+          let rv := match ret with Some (e, _) => eval h2 fr e | None => Some (VInt 0) end in
+          match rv, copy_back h2 thn with
+          | Some v, Some (h3, fb) =>
+              match ret with
+              | None => Some (h3, out, fp ++ fb)
+              | Some (_, None) => Some (h3 ++ [v], out, fp ++ fb)        (* kept in a fresh local of the caller *)
+              | Some (_, Some d) =>
+                  match resolve h3 fr0 d with
+                  | Some c => match hwrite_t h3 th0 c v with
+                              | Some h4 => Some (h4, out, fp ++ fb ++ fp_of th0 c)
+                              | None => None
+                              end
+                  | None => None
+                  end
+              end
+          | _, _ => None
+          end
+      end
+  end.
+
+(* a statement of a callee body that may contain calls *)
+Inductive stmt : Type :=
+| TS (s : sop)
+| TCall (ps : list param) (body : list sop) (ret : option (aexp * option aexp)).
+
+Definition exec_stmt (mech : bool) (h : heap) (fr : frame) (th : thru) (s : stmt) : option res :=
+  match s with
+  | TS s' => exec_sop h fr th s'
+  | TCall ps body ret => exec_call_in mech h fr th ps body ret
+  end.
+
+Fixpoint exec_stmts (mech : bool) (h : heap) (fr : frame) (th : thru) (ss : list stmt) : option res :=
+  match ss with
+  | [] => Some (h, [], [])
+  | s :: ss' =>
+      match exec_stmt mech h fr th s with
+      | Some (h1, o1, f1) =>
+          match exec_stmts mech h1 fr th ss' with
+          | Some (h2, o2, f2) => Some (h2, o1 ++ o2, f1 ++ f2)
+          | None => None
+          end
+      | None => None
+      end
+  end.
+
+Definition exec_call2 (mech : bool) (h : heap) (ps : list param) (body : list stmt)
+           (ret : option (aexp * option aexp)) : option res :=
+  match bind mech h ps [] [] with
+  | None => None
+  | Some (h1, fr, th) =>
+      match exec_stmts mech h1 fr th body with
+      | None => None
+      | Some (h2, out, fp) =>
+          let rv := match ret with Some (e, _) => eval h2 fr e | None => Some (VInt 0) end in
+          match rv, copy_back h2 th with
+          | Some v, Some (h3, fb) =>
+              match ret with
+              | None => Some (h3, out, fp ++ fb)
+              | Some (_, None) => Some (h3 ++ [v], out, fp ++ fb)
+              | Some (_, Some d) =>
+                  match resolve h3 [] d with
+                  | Some c => match hwrite h3 c v with Some h4 => Some (h4, out, fp ++ fb ++ [c]) | None => None end
+                  | None => None
+                  end
+              end
+          | _, _ => None
+          end
+      end
+  end.
+
+Inductive op : Type :=
+| OS (s : sop)                                   (* a statement of main *)
+| ONop (n : nat)                                 (* allocates n unused locations (left by the shrinker) *)
+| ODecl (s : aexp)                               (* T c = s;   fresh location holding a copy *)
+| OCall (ps : list param) (body : list sop)      (* f(args) / recv.m(): generated callee body *)
+        (ret : option (aexp * option aexp))      (* return e;  stored into Some d  or a fresh variable *)
+| OCall2 (ps : list param) (body : list stmt)    (* the same with a body that itself makes calls *)
+         (ret : option (aexp * option aexp)).
+
 Definition exec_op (mech : bool) (h : heap) (o : op) : option res :=
   match o with
   | OS s => exec_sop h [] [] s
   | ONop n => Some (h ++ repeat (VInt 0) n, [], [])
   | ODecl s => match eval h [] s with Some v => Some (h ++ [v], [], []) | None => None end
   | OCall ps body ret => exec_call mech h ps body ret
+  | OCall2 ps body ret => exec_call2 mech h ps body ret
   end.
 
 (* a history; stops at the first statement that cannot be executed (ok = false) *)
